@@ -12,8 +12,8 @@
    association lists (insertion order; no operation of the book depends on map
    order once the caps are out of play).
 
-   Not modelled: the three caps (maxUnconnectedAddrs, maxSignedPeerRecords,
-   maxAddrsPerPeer) — the model is the book with caps that never bind (the
+   Not modelled, by choice (see Model_ds.v and the weak monitor in Spec.v): the
+   three caps (maxUnconnectedAddrs, maxSignedPeerRecords, maxAddrsPerPeer) — the model is the book with caps that never bind (the
    defaults, on the small universes of the histories); AddrStream pub-sub. *)
 From Coq Require Import List ZArith Bool.
 From Verif Require Import gen.Consts_c09 c09.Abs.
